@@ -1224,6 +1224,8 @@ class Interp:
                         return self.call_user_nested(("bound", base, p), [], {}, st, ctx, node)
                     mth = ho.cls.find_method(attr)
                     if mth is not None:
+                        if any(d.split("(")[0].split(".")[-1] == "staticmethod" for d in mth.decorators):
+                            return ("func", mth)
                         return ("bound", base, mth)
                 if ho.symbolic:
                     typ: Any = "any"
@@ -1264,6 +1266,11 @@ class Interp:
             except AnalysisError:
                 pass
         if t == "ite":
+            d = decided_by(st.pc, base[1])
+            if d is True:
+                return self.getattr(base[2], attr, st, ctx, node)
+            if d is False:
+                return self.getattr(base[3], attr, st, ctx, node)
             a = self.getattr(base[2], attr, st, ctx, node)
             b = self.getattr(base[3], attr, st, ctx, node)
             return ite(base[1], a, b)
@@ -1478,6 +1485,15 @@ class Interp:
                     raise AnalysisError(f"slice step at {ctx.loc(node)}")
             return self.lib.slice_value(self, base, lo, hi, st, ctx, node)
         idx = self.eval(node.slice, st, ctx)
+        if isinstance(idx, tuple) and idx and idx[0] == "sliceobj":
+            # x[slice(a, b)] == x[a:b]
+            lo, hi, stepv = (None if v == c(None) else v for v in idx[1:4])
+            if stepv is not None:
+                if is_c(stepv) and stepv[1] == -1 and lo is None and hi is None:
+                    return self.lib.reverse_value(self, base, st, ctx, node)
+                if not (is_c(stepv) and stepv[1] == 1):
+                    raise AnalysisError(f"slice step at {ctx.loc(node)}")
+            return self.lib.slice_value(self, base, lo, hi, st, ctx, node)
         return self.lib.index_value(self, base, idx, st, ctx, node)
 
     def ev_Tuple(self, node: ast.Tuple, st: State, ctx: Ctx) -> Term:
@@ -1514,7 +1530,7 @@ class Interp:
                 out = T.concat(out, self.lib.format_value(self, x, spec, st, ctx, node))
             else:
                 raise AnalysisError(f"f-string part at {ctx.loc(node)}")
-        return out
+        return self.lib.merge_strftime(out)
 
     def ev_ListComp(self, node: ast.ListComp, st: State, ctx: Ctx) -> Term:
         if len(node.generators) != 1 or node.generators[0].is_async:
@@ -1634,6 +1650,16 @@ class Interp:
             a, b = self.truth(v[2], st), self.truth(v[3], st)
             if a == b:
                 return a
+            if _is_cond(v[1]) or is_c(v[1]):
+                # as a condition: (p and a) or (not p and b), simplified when a branch is constant
+                if b == c(False):
+                    return conj([v[1], a])
+                if a == c(False):
+                    return conj([neg(v[1]), b])
+                if b == c(True):
+                    return disj([neg(v[1]), a])
+                if a == c(True):
+                    return disj([v[1], b])
             return ite(v[1], a, b)
         if t == "sym" and isinstance(v[2], tuple) and v[2] and v[2][0] == "enum":
             return c(True)
